@@ -31,7 +31,9 @@ REV = S + r'(' + COMMON + r'|rfind|rfind_raw|rfind_raw_impl|rfind_raw_sse2|rfind
 CNT = r'One::(' + COMMON + r'|count|count_raw|count_raw_impl|count_raw_sse2|count_raw_avx2)'
 ITERS = r'(OneIter|TwoIter|ThreeIter|Iter|Memchr|Memchr2|Memchr3)::.*'
 
-FUNCTIONAL = ('postcondition', 'precondition', 'trait-contract', 'invariant', 'decreases')
+# a function that panics (index, overflow in a debug build, failed assertion) does not "return exactly X" either, so
+# the obligations that exclude panics count for the functional properties as well (they used to be left to C14 alone)
+FUNCTIONAL = ('postcondition', 'precondition', 'trait-contract', 'invariant', 'decreases', 'arithmetic', 'bounds', 'assertion', 'recommends')
 PANIC = ('arithmetic', 'bounds', 'assertion', 'recommends', 'precondition', 'decreases')
 
 MAIN_MODS_MEMCHR = ['ext', 'vector', 'vbase', 'arch::generic::memchr', 'arch::x86_64::sse2::memchr', 'arch::x86_64::avx2::memchr',
@@ -185,11 +187,26 @@ PROPS = {
                             'is proved exact for every state; as_ref/into_owned/needle contracts proved; derived Clone of the front-end types '
                             'carries no Verus spec except the assumed r == *self for Searcher/SearcherRev',
                 assumptions=[A_GLUE, 'Box<[u8]>::from(&[u8]) content spec assumed']),
-    'C18': dict(level='proof', kinds=FUNCTIONAL + ('arithmetic',), kani=[],
+    # C17: heap allocation as a permission.  The std allocating constructors are redirected (rule X16) to prelude wrappers that
+    # `require may_alloc()`, an uninterpreted fact no function can establish; only functions that declare the permission
+    # themselves (into_owned of CowBytes / Finder / FinderRev / FindIter / FindRevIter, Shift-Or Finder::new) may reach them.
+    'C17': dict(explore=True, level='proof', kinds=('precondition',), clause_only=r'may_alloc', alloc_scan=True, perm_canary=True, kani=[],
+                builds=[dict(build='main', modules=None, select=[(r'.*', r'.*')])] + others([(r'.*', r'.*')]),
+                explanation='every function of the crate is verified without the allocation permission except the owning conversions and the '
+                            'Shift-Or constructor, which declare it; a call that can reach a heap allocator from any other function fails the '
+                            'precondition `may_alloc()` of the allocator wrapper or of the permitted function it goes through',
+                assumptions=['A8 rule X16: calls of Box::from / Box::new / Vec::new / Vec::with_capacity / .to_vec() are redirected to prelude wrappers '
+                             '(same value, assumed functional spec, plus `requires may_alloc()`); other std allocating constructs are not modelled: '
+                             'a token scan of the extracted code reports any (vec!, format!, String, Rc, Arc, collections, to_owned, collect, other '
+                             'Box::/Vec:: paths) as undecided, and Verus rejects calls of std functions it has no specification for',
+                             'derived Clone of an OWNED Finder/CowBytes allocates; the property speaks of finders built from a borrowed needle, whose Clone copies a reference',
+                             'allocation inside std/core functions that have a Verus specification but do not allocate by contract (none is known among those the crate calls) is not observed',
+                             A_DISP]),
+    'C18': dict(level='proof', kinds=FUNCTIONAL, kani=[],
                 builds=[dict(build='main', modules=['ext', 'vbase', 'arch::all'], select=[(EQ, r'.*'), (r'^ext$', r'.*'), (r'^vbase$', r'.*')]),
                         dict(build='other32', modules=['ext', 'vbase', 'arch::all'], select=[(EQ, r'.*'), (r'^ext$', r'.*'), (r'^vbase$', r'.*')])],
                 assumptions=[]),
-    'C19': dict(explore=True, level='proof', kinds=FUNCTIONAL + ('assertion',), kani=K_PAIR,
+    'C19': dict(explore=True, level='proof', kinds=FUNCTIONAL, kani=K_PAIR,
                 builds=[dict(build='main', modules=MAIN_MODS_SUB, select=[(APP, r'(Pair::.*|Finder::(new|with_pair|pair))'),
                                                                           (GPP, r'Finder::(new|pair|min_haystack_len)'),
                                                                           (XPP, r'Finder::(new|with_pair|with_pair_impl|pair|min_haystack_len)')])] + others([(APP, r'(Pair::.*|Finder::(new|with_pair|pair))'), (GPP, r'Finder::(new|pair|min_haystack_len)'), (XPP, r'Finder::(new|with_pair|with_pair_impl|pair|min_haystack_len)')]),
@@ -200,9 +217,9 @@ PROPS = {
 
 COMMON_ASSUMPTIONS = [
     'A1 pointer/memory model of prelude/vbase.vrs: address = integer, provenance ignored, memory reachable through the given slices is immutable during a call',
-    'A4 little-endian composition of multi-byte unaligned loads; usize = 64 bit',
+    'A4 little-endian composition of multi-byte unaligned loads; usize is 64 bit in the main/aarch64/wasm32/other units and 32 bit in other32',
     'A5 std specs assumed in the prelude (assume_specification items listed in trusted_base)',
-    'A7 the extractor rules X0-X12 (tool/xform.py) preserve semantics; Verus, Z3, Kani, CBMC are trusted',
+    'A7 the extractor rules X0-X16 (tool/xform.py, tool/units.py) preserve semantics; Verus, Z3, Kani, CBMC are trusted',
 ]
 
 TITLES = {}
